@@ -1,5 +1,13 @@
 ------------------------------ MODULE MC_Chain ------------------------------
+(***************************************************************************)
+(* Menus (which top-level calls, which contract behaviours) for the model- *)
+(* checking configurations of ChainGen, one section per property.  Menus   *)
+(* are factored per property: a configuration switches on only the         *)
+(* dimensions its property talks about.                                    *)
+(***************************************************************************)
 EXTENDS ChainGen
+
+CONSTANT Level     \* 1 = quick menus, 2 = thorough menus
 
 Beh(fail, writes, attrs, events, data, subs) ==
     [fail |-> fail, writes |-> writes, attrs |-> attrs, events |-> events, data |-> data, subs |-> subs]
@@ -8,50 +16,240 @@ BFail == Beh(TRUE, <<>>, <<>>, <<>>, NoData, <<>>)
 Sub(msg, id, payload, on) == [msg |-> msg, id |-> id, payload |-> payload, on |-> on]
 
 Exec(to, funds) == [k |-> "exec", to |-> to, funds |-> funds]
-Send(to, n)     == [k |-> "bank_send", to |-> to, coins |-> << <<"eth", n>> >>]
+Eth(n)          == << <<"eth", n>> >>
+Send(to, n)     == [k |-> "bank_send", to |-> to, coins |-> Eth(n)]
+Burn(n)         == [k |-> "bank_burn", coins |-> Eth(n)]
 Inst(code, label, admin, funds, salt) ==
     [k |-> "inst", code |-> code, label |-> label, admin |-> admin, funds |-> funds, salt |-> salt]
-ExecuteCall(sender, msgs) == [k |-> "execute", sender |-> sender, msgs |-> msgs, via |-> "multi"]
+Migrate(to, code)      == [k |-> "migrate", to |-> to, code |-> code]
+UpdateAdmin(to, admin) == [k |-> "update_admin", to |-> to, admin |-> admin]
+ClearAdmin(to)         == [k |-> "clear_admin", to |-> to]
+Mod(slot, payload)     == [k |-> "mod", slot |-> slot, payload |-> payload]
+
+ExecuteVia(sender, msgs, via) == [k |-> "execute", sender |-> sender, msgs |-> msgs, via |-> via]
+ExecuteCall(sender, msgs) == ExecuteVia(sender, msgs, "multi")
+SudoWasm(c, via) == [k |-> "sudo_wasm", c |-> c, via |-> via]
+SudoMint(to, coins) == [k |-> "sudo_mint", to |-> to, coins |-> coins]
 
 Ons == {"never", "success", "error", "always"}
 
 A == "c1_0"
 B == "c2_1"
 C == "c1_2"
+NextOf(c) == IF c = A THEN B ELSE IF c = B THEN C ELSE ""
 
-Mods0 == [s \in {"custom", "staking", "distribution", "ibc", "gov", "stargate", "any"} |-> "fail"]
+Slots == {"custom", "staking", "distribution", "ibc", "gov", "stargate", "any"}
+Mods0 == [s \in Slots |-> "fail"]
 
-(* two codes, three contracts (two from the same code), one funded user *)
+(* two codes, three contracts (A and C from the same code), a funded user, a funded contract *)
 Genesis0 ==
     << [call |-> [k |-> "store_code", creator |-> "u1", flavour |-> 1], sc |-> <<>>],
        [call |-> [k |-> "store_code", creator |-> "u1", flavour |-> 2], sc |-> <<>>],
-       [call |-> [k |-> "sudo_mint", to |-> "u1", coins |-> << <<"eth", 3>> >>], sc |-> <<>>],
+       [call |-> SudoMint("u1", Eth(3)), sc |-> <<>>],
        [call |-> ExecuteCall("u1", << Inst(1, "L1", "u1", <<>>, "") >>), sc |-> <<B0>>],
        [call |-> ExecuteCall("u1", << Inst(2, "L2", "", <<>>, "") >>), sc |-> <<B0>>],
        [call |-> ExecuteCall("u1", << Inst(1, "L3", "u2", <<>>, "") >>), sc |-> <<B0>>],
        [call |-> ExecuteCall("u1", << Send(A, 1) >>), sc |-> <<>>] >>
 
-(* ---------------------------------------------------------------------- *)
-(* C02 / C03 / C10: failure anywhere in a tree of sub-messages            *)
 WriteTok(info) == << <<"k", "n" \o ToString(info.pos)>> >>
+W(info) == Beh(FALSE, WriteTok(info), <<>>, <<>>, NoData, <<>>)
+WSub(info, subs) == Beh(FALSE, WriteTok(info), <<>>, <<>>, NoData, subs)
 
-NextOf(c) == IF c = A THEN B ELSE IF c = B THEN C ELSE ""
-
-SubMsgs(c) == (IF NextOf(c) # "" THEN {Exec(NextOf(c), <<>>)} ELSE {}) \cup {Send("u2", 1), Send("u2", 9)}
-Subs1(c) == {Sub(m, 7, "p1", on) : m \in SubMsgs(c), on \in Ons}
+(* ====================================================================== *)
+(* tree: C02 / C03 / C10 - failure anywhere in a tree of sub-messages      *)
+TreeMsgs(c) == (IF NextOf(c) # "" THEN {Exec(NextOf(c), <<>>)} ELSE {})
+               \cup {Send("u2", 1), Send("u2", 9)}
+               \cup (IF Level > 1 /\ c = A THEN {Inst(1, "Lx", "", <<>>, ""), Inst(7, "Lx", "", <<>>, "")} ELSE {})
+TreeSubs(c) == {Sub(m, 7, "p1", on) : m \in TreeMsgs(c), on \in Ons}
+TreeSecond == {Sub(m, 8, "p2", on) : m \in {Send("u2", 1), Send("u2", 9)}, on \in Ons}
 
 TreeMenu(info, fuel, cu) ==
     IF info.entry = "reply"
-    THEN {Beh(FALSE, WriteTok(info), <<>>, <<>>, NoData, <<>>), BFail}
-    ELSE {BFail}
-         \cup {Beh(FALSE, WriteTok(info), <<>>, <<>>, NoData, <<>>)}
+    THEN {W(info), BFail}
+         \cup (IF Level > 1 THEN {WSub(info, <<Sub(Send("u2", 9), 5, "", on)>>) : on \in {"never", "error"}} ELSE {})
+    ELSE {BFail, W(info)}
          \cup (IF fuel > 1
-               THEN {Beh(FALSE, WriteTok(info), <<>>, <<>>, NoData, <<s>>) : s \in Subs1(info.c)}
-                    \cup (IF info.c = A
-                          THEN {Beh(FALSE, WriteTok(info), <<>>, <<>>, NoData, <<s1, s2>>) :
-                                    s1 \in Subs1(A), s2 \in {Sub(m, 8, "p2", on) : m \in {Send("u2", 1), Send("u2", 9)}, on \in Ons}}
-                          ELSE {})
+               THEN {WSub(info, <<s>>) : s \in TreeSubs(info.c)}
+                    \cup (IF info.c = A THEN {WSub(info, <<s1, s2>>) : s1 \in TreeSubs(A), s2 \in TreeSecond} ELSE {})
                ELSE {})
 
 TreeCalls(rt, cd, n) == { ExecuteCall("u1", << Exec(A, <<>>) >>) }
+
+(* ====================================================================== *)
+(* atomic: C01 - every entry point, failures never absorbed (reply_on in {never, success}) *)
+AtomOns == {"never", "success"}
+AtomMsgs(c) == (IF NextOf(c) # "" THEN {Exec(NextOf(c), <<>>)} ELSE {})
+               \cup {Send("u2", 1), Send("u2", 9), Inst(1, "Lx", "", <<>>, ""), Inst(7, "Lx", "", <<>>, "")}
+AtomSubs(c) == {Sub(m, 1, "", on) : m \in AtomMsgs(c), on \in AtomOns}
+AtomMenu(info, fuel, cu) ==
+    IF info.entry = "reply" THEN {W(info), BFail}
+    ELSE {BFail, W(info)}
+         \cup (IF fuel > 1 THEN {WSub(info, <<s>>) : s \in AtomSubs(info.c)} ELSE {})
+         \cup (IF fuel > 1 /\ info.c = A /\ Level > 1
+               THEN {WSub(info, <<s1, s2>>) : s1 \in AtomSubs(A), s2 \in {Sub(Send("u2", 9), 2, "", "never"), Sub(Send("u2", 1), 2, "", "success")}}
+               ELSE {})
+AtomCalls(rt, cd, n) ==
+    { ExecuteVia("u1", << Exec(A, <<>>) >>, v) : v \in {"multi", "execute", "helper"} }
+    \cup { ExecuteCall("u1", << Exec(A, <<>>), Send("u2", 1) >>),
+           ExecuteCall("u1", << Send("u2", 1), Exec(A, <<>>) >>),
+           ExecuteCall("u1", << Exec(B, <<>>), Send("u2", 9) >>),
+           ExecuteCall("u1", << Send("u2", 2), Send("u2", 1), Send("u3", 1) >>),
+           ExecuteVia("u1", << Send("u2", 1) >>, "helper"),
+           ExecuteVia("u1", << Inst(2, "Ly", "u1", Eth(1), "") >>, "helper"),
+           ExecuteVia("u1", << Inst(7, "Ly", "u1", <<>>, "") >>, "helper"),
+           SudoMint("u2", Eth(1)), SudoMint("u2", Eth(0)) }
+    \cup { SudoWasm(A, v) : v \in {"sudo", "wasm_sudo"} }
+
+(* ====================================================================== *)
+(* reply: C03 - ids, payloads, what the reply carries *)
+ReplyIds == IF Level > 1 THEN {0, 1, 9} ELSE {0, 9}
+ReplyPayloads == IF Level > 1 THEN {"", "p1", "pz"} ELSE {"", "pz"}
+ChildBehs(info) ==
+    {BFail, W(info),
+     Beh(FALSE, <<>>, << <<<<"ak">>, "av">> >>, << [ty |-> <<"ty">>, attrs |-> << <<<<"ek">>, "ev">> >>] >>, Raw("d1"), <<>>),
+     Beh(FALSE, <<>>, <<>>, <<>>, Raw(""), <<>>)}
+ReplyMenu(info, fuel, cu) ==
+    IF info.entry = "reply" THEN {W(info), BFail, Beh(FALSE, <<>>, <<>>, <<>>, Raw("r1"), <<>>)}
+    ELSE IF info.c = A
+    THEN {WSub(info, <<Sub(m, id, p, on)>>) :
+              m \in {Exec(B, <<>>), Send("u2", 1), Send("u2", 9), Inst(2, "Lr", "", <<>>, "")},
+              id \in ReplyIds, p \in ReplyPayloads, on \in Ons}
+         \cup {WSub(info, <<Sub(Exec(B, <<>>), 1, "p1", on1), Sub(Exec(C, <<>>), 2, "p2", on2)>>) : on1 \in Ons, on2 \in Ons}
+    ELSE ChildBehs(info)
+ReplyCalls(rt, cd, n) == { ExecuteCall("u1", << Exec(A, <<>>) >>) }
+
+(* ====================================================================== *)
+(* events: C04 - attributes, custom events, data at every node, every entry kind *)
+Attr1 == << <<<<"ak">>, "av">> >>
+Attr2 == << <<<<"ak">>, "av">>, <<<<"a2">>, "">> >>
+Ev0 == [ty |-> <<"t0">>, attrs |-> <<>>]
+Ev1 == [ty |-> <<"t1">>, attrs |-> << <<<<"ek">>, "ev">> >>]
+RichAttrs  == IF Level > 1 THEN {<<>>, Attr1, Attr2} ELSE {<<>>, Attr2}
+RichEvents == IF Level > 1 THEN {<<>>, <<Ev0>>, <<Ev1>>, <<Ev1, Ev0>>} ELSE {<<>>, <<Ev1, Ev0>>}
+RichData(info) == {NoData, Raw(""), Raw("d" \o ToString(info.pos))}
+Rich(info, subs) == {Beh(FALSE, <<>>, a, e, d, subs) : a \in RichAttrs, e \in RichEvents, d \in RichData(info)}
+EvSubs == {Sub(m, 3, "", on) : m \in {Exec(B, <<>>), Send("u2", 1), Send("u2", 9), Inst(2, "Le", "", <<>>, "")}, on \in Ons}
+EventsMenu(info, fuel, cu) ==
+    IF info.entry = "reply" THEN Rich(info, <<>>) \cup {BFail}
+    ELSE IF info.c = B \/ (info.entry = "instantiate" /\ Len(cu.sc) > 0) THEN Rich(info, <<>>) \cup {BFail}
+    ELSE UNION {Rich(info, <<s>>) : s \in EvSubs} \cup Rich(info, <<>>)
+         \cup (IF Level > 1
+               THEN UNION {Rich(info, <<Sub(Exec(B, <<>>), 1, "", on1), Sub(Exec(C, <<>>), 2, "", on2)>>) : on1 \in {"success", "never"}, on2 \in {"success", "error"}}
+               ELSE {})
+EventsCalls(rt, cd, n) ==
+    { ExecuteCall("u1", << Exec(A, <<>>) >>),
+      ExecuteCall("u1", << Inst(1, "Li", "u1", <<>>, "") >>),
+      ExecuteCall("u1", << Migrate(A, 2) >>),
+      SudoWasm(A, "sudo"),
+      ExecuteCall("u1", << Send("u2", 1), Exec(A, <<>>) >>) }
+
+(* ====================================================================== *)
+(* funds: C05 - caller, own address, block, attached funds *)
+FundsSet == {<<>>, Eth(1), Eth(2), Eth(3), << <<"eth", 1>>, <<"btc", 1>> >>}
+SubFunds == {<<>>, Eth(1), Eth(2)}
+FundsMenu(info, fuel, cu) ==
+    IF info.entry = "reply" THEN {W(info)}
+    ELSE {W(info), BFail}
+         \cup (IF fuel > 1
+               THEN {WSub(info, <<Sub(m, 1, "", on)>>) :
+                        m \in {Exec(NextOf(info.c), f) : f \in (IF NextOf(info.c) = "" THEN {} ELSE SubFunds)}
+                              \cup {Exec(info.c, f) : f \in SubFunds \ {<<>>}}        \* a contract calling itself
+                              \cup {Inst(2, "Lf", "", f, "") : f \in SubFunds}
+                              \cup (IF info.c = B THEN {Exec(A, Eth(1))} ELSE {}),
+                        on \in {"never", "error"}}
+               ELSE {})
+FundsCalls(rt, cd, n) ==
+    IF n = 0 /\ MaxTx > 1
+    THEN {[k |-> "next_block"], [k |-> "set_block", h |-> 7, t |-> 100], SudoMint("u3", Eth(1))}
+    ELSE { ExecuteCall(u, << Exec(A, f) >>) : u \in {"u1", "u2"}, f \in FundsSet }
+         \cup { ExecuteCall("u1", << Inst(2, "Lf", "", f, "") >>) : f \in {Eth(1), Eth(3)} }
+         \cup { SudoWasm(A, "sudo"), ExecuteCall("u1", << Migrate(A, 2) >>) }
+
+GenesisFunds == Genesis0 \o << [call |-> SudoMint("u1", << <<"btc", 1>> >>), sc |-> <<>>] >>
+
+(* ====================================================================== *)
+(* private: C08 - who can touch which contract's storage *)
+PrivKeys == {"k", "k1", "k2"}
+PrivWrites(info) == {<<>>} \cup {<< <<key, "v" \o ToString(info.pos)>> >> : key \in PrivKeys} \cup {<< <<"k", "DEL">> >>}
+                    \cup {<< <<"k1", "x">>, <<"k2", "y">> >>}
+PrivMenu(info, fuel, cu) ==
+    {Beh(FALSE, ws, <<>>, <<>>, NoData, <<>>) : ws \in PrivWrites(info)}
+    \cup (IF fuel > 1 /\ info.entry # "reply"
+          THEN {Beh(FALSE, ws, <<>>, <<>>, NoData, <<Sub(Exec(t, <<>>), 1, "", on)>>) :
+                    ws \in {<<>>, << <<"k", "p" \o ToString(info.pos)>> >>},
+                    t \in {A, B, C} \ {info.c}, on \in {"never", "error"}}
+          ELSE {})
+    \cup (IF info.entry # "reply" /\ Len(cu.sc) > 0 THEN {BFail} ELSE {})
+PrivCalls(rt, cd, n) == { ExecuteCall("u1", << Exec(c, <<>>) >>) : c \in {A, B, C} }
+
+(* ====================================================================== *)
+(* registry: C11 - code ids and contract addresses *)
+RegCodeIds == {0, 1, 3, 5}
+RegMenu(info, fuel, cu) ==
+    {B0, BFail} \cup (IF fuel > 1 /\ info.entry = "execute"
+                      THEN {Beh(FALSE, <<>>, <<>>, <<>>, NoData, <<Sub(m, 1, "", on)>>) :
+                               m \in {Inst(1, "Ls", "", <<>>, ""), Inst(1, "Ls", "", <<>>, "s1"), Inst(5, "Ls", "", <<>>, "")},
+                               on \in {"never", "error"}}
+                      ELSE {})
+RegCalls(rt, cd, n) ==
+    { [k |-> "store_code", creator |-> "u2", flavour |-> 2] }
+    \cup { [k |-> "store_code_with_id", creator |-> u, id |-> i, flavour |-> 1] : u \in {"u2"}, i \in RegCodeIds }
+    \cup { [k |-> "duplicate_code", id |-> i] : i \in {1, 4, 5} }
+    \cup { ExecuteCall(u, << Inst(code, label, adm, <<>>, salt) >>) :
+              u \in {"u1", "u2"}, code \in {1, 3, 5, 7}, label \in {"Lq", ""}, adm \in {"", "u2"}, salt \in {"", "s1"} }
+    \cup { ExecuteCall("u1", << Exec(A, <<>>) >>) }
+
+(* ====================================================================== *)
+(* admin: C12 - migrate / update admin / clear admin *)
+AdmMenu(info, fuel, cu) ==
+    IF info.entry = "execute" /\ fuel > 1
+    THEN {Beh(FALSE, <<>>, <<>>, <<>>, NoData, <<Sub(m, 1, "", on)>>) :
+             m \in {Migrate(A, 2), UpdateAdmin(A, B), Migrate(B, 1), UpdateAdmin(B, "u1"), ClearAdmin(A), Migrate(info.c, 2)},
+             on \in {"never", "error"}} \cup {B0}
+    ELSE {W(info), BFail}
+AdmCalls(rt, cd, n) ==
+    { ExecuteCall(u, <<m>>) : u \in {"u1", "u2", "u3"},
+          m \in {Migrate(A, 2), Migrate(A, 1), Migrate(A, 7), Migrate(B, 1), Migrate(C, 2),
+                 UpdateAdmin(A, "u2"), UpdateAdmin(A, B), UpdateAdmin(C, "u3"), ClearAdmin(A), ClearAdmin(B), ClearAdmin(C)} }
+    \cup { ExecuteCall("u1", << Exec(c, <<>>) >>) : c \in {A, B} }
+
+(* ====================================================================== *)
+(* strings: C13 - attribute keys and event types *)
+Chars == {"SP", "USP", "US", "L1", "L2"} \cup (IF Level > 1 THEN {"TAB"} ELSE {})
+StrUpTo(n) == UNION {[1..m -> Chars] : m \in 0..n}
+StrLen == IF Level > 1 THEN 3 ELSE 2
+Vals == {"", " ", "tx"}
+StrBehs ==
+    {Beh(FALSE, <<>>, << <<s, v>> >>, <<>>, NoData, <<>>) : s \in StrUpTo(StrLen), v \in {"", "tx"}}
+    \cup {Beh(FALSE, <<>>, <<>>, << [ty |-> <<"ty">>, attrs |-> << <<s, " ">> >>] >>, NoData, <<>>) : s \in StrUpTo(StrLen)}
+    \cup {Beh(FALSE, <<>>, <<>>, << [ty |-> s, attrs |-> <<>>] >>, NoData, <<>>) : s \in StrUpTo(StrLen)}
+    \cup {Beh(FALSE, <<>>, << <<<<"ok">>, "v">>, <<s, "v">> >>, <<>>, NoData, <<>>) : s \in StrUpTo(1)}
+StrMenu(info, fuel, cu) ==
+    IF Len(cu.sc) = 0 /\ cu.call.k = "execute" /\ cu.call.msgs[1].k = "exec" /\ cu.call.msgs[1].to = A
+    THEN {WSub(info, <<Sub(Exec(B, <<>>), 1, "", on)>>) : on \in {"never", "error", "always", "success"}}
+    ELSE IF info.entry = "reply" /\ cu.sc[Len(cu.sc)].fail = FALSE /\ ~BadResponse(cu.sc[Len(cu.sc)]) /\ Len(cu.sc) > 1
+    THEN StrBehs
+    ELSE IF info.entry = "reply" THEN {B0}
+    ELSE StrBehs
+StrCalls(rt, cd, n) ==
+    { ExecuteCall("u1", << Exec(B, <<>>) >>),
+      ExecuteCall("u1", << Exec(A, <<>>) >>),
+      ExecuteCall("u1", << Inst(2, "Lz", "", <<>>, "") >>),
+      ExecuteCall("u1", << Migrate(A, 2) >>),
+      SudoWasm(B, "sudo") }
+
+(* ====================================================================== *)
+(* routing: C17 - every message kind reaches its module *)
+ModsFor(acc) == [s \in Slots |-> IF s \in acc THEN "accept" ELSE "fail"]
+RouteMenu(info, fuel, cu) ==
+    IF info.entry = "reply" THEN {B0}
+    ELSE {Beh(FALSE, WriteTok(info), <<>>, <<>>, NoData, <<Sub(Mod(s, "m1"), 1, "", on)>>) : s \in Slots, on \in Ons}
+         \cup {Beh(FALSE, WriteTok(info), <<>>, <<>>, NoData, <<Sub(Send("u2", 1), 1, "", "never"), Sub(Mod(s, "m2"), 2, "", on)>>) :
+                  s \in Slots, on \in {"never", "error"}}
+RouteCalls(rt, cd, n) ==
+    { ExecuteCall("u1", << Mod(s, "m0") >>) : s \in Slots }
+    \cup { ExecuteCall("u1", << Send("u2", 1), Mod(s, "m3") >>) : s \in Slots }
+    \cup { ExecuteCall("u1", << Exec(c, <<>>) >>) : c \in {A, B} }
+ModsAcceptAll == ModsFor(Slots)
+ModsMixed == ModsFor({"custom", "ibc", "any"})
 =============================================================================
